@@ -145,6 +145,9 @@ def check_run(res, model, scen, script, observations, err):
         sig = {"clause": clause, "model": model, "main": scen["main"]}
         if "fields" in detail:
             sig["fields"] = detail["fields"]
+        if clause == "pending_unmasked_request_not_delivered" and model == "py":
+            # where the model's private pending flag was last dropped (distinguishes mechanisms of the same clause)
+            sig["flag_dropped_at"] = detail.get("flag_dropped_at")
         res.violation(sig, case, detail)
     return mon.stats["entries"] > 0
 
